@@ -222,7 +222,33 @@ class Emitter:
 
 
 def build(recs: List[Dict[str, Any]]) -> Tuple[List[Any], List[Any]]:
-    """All descriptions in one layer: returns (requests, responses) in order."""
+    """All descriptions in one layer: returns (requests, responses) in order.  If the library cannot load them, they are
+    loaded one by one and the culprits are returned as (LoadFailure, LoadFailure)."""
+    try:
+        return _build(recs)
+    except Exception:  # noqa: BLE001
+        if len(recs) == 1:
+            raise
+    rqs: List[Any] = []
+    prs: List[Any] = []
+    for r in recs:
+        try:
+            a_, b_ = _build([r])
+            rqs.append(a_[0])
+            prs.append(b_[0])
+        except Exception as e:  # noqa: BLE001
+            lf = LoadFailure(f"{type(e).__name__}: {str(e)[:120]}")
+            rqs.append(lf)
+            prs.append(lf)
+    return rqs, prs
+
+
+class LoadFailure:
+    def __init__(self, exc: str) -> None:
+        self.exc = exc
+
+
+def _build(recs: List[Dict[str, Any]]) -> Tuple[List[Any], List[Any]]:
     em = Emitter()
     for n, r in enumerate(recs):
         em.message(n, r["ps"])
